@@ -68,7 +68,7 @@ def _member(v: dict, d: str, name: str, method: bool) -> list:
         ret = " -> int" if d in v.get("ret", ()) else ""
         return [f"def {name}({', '.join(params)}){ret}: ..."]
     if k == "attribute":
-        return [f"{name} = {_val(v, d)}"]
+        return [f"{name}: int" if v["val"][d] == "unset" else f"{name} = {_val(v, d)}"]
     return []
 
 
@@ -77,6 +77,11 @@ SIB = "zapi"
 
 def site_of(v: dict) -> str:
     return v.get("site", "root")
+
+
+def k_bases(v: dict) -> str:
+    bases = (["B"] if v["kbase"] else []) + (["LookupError"] if v.get("kext") else [])
+    return f"({', '.join(bases)})" if bases else ""
 
 
 def render(v: dict, mpriv: bool) -> dict:
@@ -104,7 +109,7 @@ def render(v: dict, mpriv: bool) -> dict:
         m.append(f"from pkg.{SIB} import cyc" if sib else "from pkg import cyc")
     if v["hasMall"]:
         m.append("__all__ = [" + ", ".join(f'"{n}"' for n in MALL_ORDER if n in v["mall"]) + "]")
-    for cls, base, members in (("B", "", [("bm", "bm"), ("Bn", "n")]), ("K", "(B)" if v["kbase"] else "", [("km", "km"), ("kp", "_kp"), ("Kn", "n")])):
+    for cls, base, members in (("B", "", [("bm", "bm"), ("Bn", "n")]), ("K", k_bases(v), [("km", "km"), ("kp", "_kp"), ("Kn", "n")])):
         k = v["kind"][cls]
         if k == "class":
             body = [ln for d, name in members for ln in _member(v, d, name, True)]
@@ -203,7 +208,7 @@ def real_report(griffe, old_pkg, new_pkg, mpriv: bool, styles) -> tuple:
 def describe(case: dict) -> str:
     v = case["old"]
     return (f"pkg/{modname(case['mpriv'])}.py, re-exports in {'pkg/zapi.py' if site_of(v) == 'sib' else 'pkg/__init__.py'}, __all__ site={sorted(v['rall']) if v['hasRall'] else None} mod={sorted(v['mall']) if v['hasMall'] else None}, "
-            f"re-exports {sorted(v['imp'])}{' +dangling' if v['ext'] else ''}{' +cyclic' if v['cyc'] else ''}{' +import-as' if v.get('mal') else ''}, K({'B' if v['kbase'] else ''}); edits: "
+            f"re-exports {sorted(v['imp'])}{' +dangling' if v['ext'] else ''}{' +cyclic' if v['cyc'] else ''}{' +import-as' if v.get('mal') else ''}, K{k_bases(v)}; edits: "
             + (", ".join(f"{e['op']}({e['id']})" for e in case["log"]) or "none"))
 
 
@@ -258,7 +263,7 @@ def judge(case: dict, real: set, aborted: str, bad_explain: list) -> tuple[list,
             out.append(({"clause": "ii-public-path", "op": ob["op"], "via": via},
                         f"{ob['op']}({ob['id']}) is reported, but only against a non-public path (public paths {['.'.join(p) for p in ob['paths']]}, reported {shown}) on {desc}"))
         else:
-            out.append(({"clause": "ii-reported", "op": ob["op"], "via": via},
+            out.append(({"clause": "ii-reported", "op": ob["op"], "via": via, "base_swap": bool(ob.get("swap"))},
                         f"{ob['op']}({ob['id']}) of a public object is not reported as {ob['kind']} (public paths {['.'.join(p) for p in ob['paths']]}, reported {shown}) on {desc}"))
     # (iii) nothing reported on private or imported-but-not-exported objects
     ok = {tuple(p) for p in case["okpaths"]}
